@@ -12,6 +12,9 @@ CHECKS = {
  "C19": dict(text="Coq theorems (Props/C19.v) about the character state machine of plugin_parser: parse(render path args) = (trim path, trimmed pairs) for every path and argument list whose components do not end in a backslash (induction over components and arguments), optional '=' for empty values, one trailing comma ignored, empty path / empty key / second '=' rejected with the matching usage error, empty string rejected. Tied to SliceOptions::try_parse_from by all 3906 strings of length <= 5 over {a, space, ',', '=', backslash} and random Unicode specifications written by the extracted renderer.",
              note="Trusted: Coq kernel, extraction, harness; clap is exercised, not modelled; Rust's char::is_whitespace is transcribed as the White_Space set.",
              tech="Coq proof (induction over the written specification) + exhaustive short-string correspondence", ref="DESIGN.md §7 C19"),
+ "C06": dict(text="Coq theorems (Props/C06.v): the implementation's tree construction and evaluation (Conditional::evaluate / process_nodes) equals, for every line sequence and symbol set, a line-by-line stack machine in which #define/#undef act only in selected regions from that line on (selected lines, final symbols and accept/reject verdict all equal); unbalanced or malformed directives are rejected; the location of a surviving line's first token computed over the original text is (line, indentation+1) regardless of removed lines; per-file symbol sets. The character-level lexer/parser of directives is part of the executable model. Tied to the real preprocessor+parser by bounded-exhaustive line sequences x symbol subsets, grammar-enumerated expressions x valuations, random files and multi-file sets.",
+             note="Trusted: Coq kernel, extraction, harness. LALRPOP recovery modelled at accept/reject level. Expression precedence (equal, left-assoc) is the code's; it is pinned by the expression sweep.",
+             tech="Coq refinement proof (tree evaluation = stack machine) + bounded-exhaustive differential correspondence", ref="DESIGN.md §7 C06"),
 }
 NOT_APPLICABLE = {}
 def main():
